@@ -8,6 +8,7 @@ import (
 	"go/token"
 	"go/types"
 	"os"
+	"sort"
 	"strings"
 
 	"golang.org/x/tools/go/ssa"
@@ -1039,7 +1040,123 @@ func lessMethodConsultsAllFields(fn *ssa.Function) (bool, string) {
 	if len(missing) > 0 {
 		return false, fmt.Sprintf("%s never consults field(s) %s of both operands: keys differing only there compare equal", shortName(fn), strings.Join(missing, ", "))
 	}
+	if why := lessStagesMisguarded(fn); why != "" {
+		return false, why
+	}
 	return true, fmt.Sprintf("%d/%d fields consulted", st.NumFields(), st.NumFields())
+}
+
+// lessStagesMisguarded: the comparator is a chain of stages `if a.F differs from b.F { return ... }`. A stage may be
+// qualified by a flag (`a.G && a.F != b.F`: F only counts when G is set), but then G has to be the field whose own
+// stage comes directly before it (so that both operands agree on G here); qualified by any other field, two keys
+// that differ in F alone can pass every stage: the order is not total and the sort leaves them in map order.
+// Returns "" if every qualified stage is qualified by the field of the stage before it.
+func lessStagesMisguarded(fn *ssa.Function) string {
+	roots := [2]map[ssa.Value]bool{{}, {}}
+	for pi := 0; pi < 2 && pi < len(fn.Params); pi++ {
+		roots[pi][fn.Params[pi]] = true
+		for _, r := range *fn.Params[pi].Referrers() {
+			if st, ok := r.(*ssa.Store); ok && st.Val == ssa.Value(fn.Params[pi]) {
+				roots[pi][st.Addr] = true
+			}
+		}
+	}
+	// fieldOf: v reads field i of operand pi (a load of &op.f, or op.f)
+	fieldOf := func(v ssa.Value) (pi, fi int, ok bool) {
+		switch x := v.(type) {
+		case *ssa.UnOp:
+			if fa, isFA := x.X.(*ssa.FieldAddr); isFA && x.Op == token.MUL {
+				for k := 0; k < 2; k++ {
+					if roots[k][fa.X] {
+						return k, fa.Field, true
+					}
+				}
+			}
+		case *ssa.Field:
+			for k := 0; k < 2; k++ {
+				if roots[k][x.X] {
+					return k, x.Field, true
+				}
+			}
+		}
+		return 0, 0, false
+	}
+	// differField: cond tests whether one field differs between the operands
+	differField := func(cond ssa.Value) (int, bool) {
+		for {
+			u, isNot := cond.(*ssa.UnOp)
+			if !isNot || u.Op != token.NOT {
+				break
+			}
+			cond = u.X
+		}
+		switch x := cond.(type) {
+		case *ssa.BinOp:
+			if x.Op == token.NEQ || x.Op == token.EQL {
+				p1, f1, ok1 := fieldOf(x.X)
+				p2, f2, ok2 := fieldOf(x.Y)
+				if ok1 && ok2 && p1 != p2 && f1 == f2 {
+					return f1, true
+				}
+			}
+		case *ssa.Call:
+			if len(x.Call.Args) == 2 && !x.Call.IsInvoke() {
+				p1, f1, ok1 := fieldOf(x.Call.Args[0])
+				p2, f2, ok2 := fieldOf(x.Call.Args[1])
+				if ok1 && ok2 && p1 != p2 && f1 == f2 {
+					return f1, true // a.F.Equal(b.F) and the like
+				}
+			}
+		}
+		return 0, false
+	}
+	st := structOf(fn.Params[0].Type())
+	for _, b := range fn.Blocks {
+		iff, ok := b.Instrs[len(b.Instrs)-1].(*ssa.If)
+		if !ok {
+			continue
+		}
+		f, isStage := differField(iff.Cond)
+		if !isStage {
+			continue
+		}
+		// qualifiers: plain boolean field reads among the conditions that dominate this stage
+		var prevStage = -1
+		conds := dominatingConds(b)
+		sort.SliceStable(conds, func(i, j int) bool { // outermost first
+			bi, bj := conds[i].If, conds[j].If
+			if bi == nil || bj == nil || bi.Block() == bj.Block() {
+				return false
+			}
+			return bi.Block().Dominates(bj.Block())
+		})
+		for _, ce := range conds {
+			if g, isDiff := differField(ce.Cond); isDiff {
+				prevStage = g
+				continue
+			}
+			cond := ce.Cond
+			for {
+				u, isNot := cond.(*ssa.UnOp)
+				if !isNot || u.Op != token.NOT {
+					break
+				}
+				cond = u.X
+			}
+			if _, g, isField := fieldOf(cond); isField {
+				if g != prevStage {
+					name := func(i int) string {
+						if st != nil && i >= 0 && i < st.NumFields() {
+							return st.Field(i).Name()
+						}
+						return fmt.Sprint(i)
+					}
+					return fmt.Sprintf("%s compares %s only when %s is set, but the stage before it compares %s: two keys that differ in %s alone can compare equal (no total order: map order leaks through the sort)", shortName(fn), name(f), name(g), name(prevStage), name(f))
+				}
+			}
+		}
+	}
+	return ""
 }
 
 // sortWrapperOf: call invokes a function of the module that sorts one of its parameters on every path (exactly one
